@@ -8,6 +8,7 @@ package mc
 // effect of the genuine original — never a third outcome.
 
 import (
+	"bytes"
 	"fmt"
 	"strings"
 	"testing"
@@ -285,6 +286,30 @@ func TestC14(t *testing.T) {
 							must(y.rcv.n.Cfg.Keyring.AddKey(keyK2))
 							must(y.rcv.n.Cfg.Keyring.AddKey(keyK2))
 							must(y.rcv.n.Cfg.Keyring.RemoveKey(keyK2))
+						}
+					}
+					x.cases += y.cases
+					y.rcv.retire()
+				}
+				// the same with a ring whose constructor was handed the key twice (a keyring file with a repeated line)
+				{
+					rc := rcfg{Keys: "K1,K2,K3,K2", Label: cell.S.Label, EncVsn: cell.R.EncVsn}
+					sc := cell.S
+					sc.Keys = "K2"
+					k2seeds := captureSeeds(b, sc)
+					y := &c14Runner{t: t, rep: rep, cell: c14Cell{cell.Name + "->removed-key-listed-twice", rc, sc}, b: b}
+					y.fresh()
+					must(y.rcv.n.Cfg.Keyring.RemoveKey(keyK2))
+					for _, sd := range k2seeds {
+						y.judge(sd, "", "", tamper{Class: "replay", Seed: sd.Family, Desc: "sealed-under-removed-key-listed-twice", Buf: sd.Buf, MayAuth: false})
+						if kr := y.rcv.n.Cfg.Keyring; kr != nil {
+							for _, k := range kr.GetKeys() {
+								if bytes.Equal(k, keyK2) {
+									// judge() replaced the receiver: remove again
+									must(kr.RemoveKey(keyK2))
+									break
+								}
+							}
 						}
 					}
 					x.cases += y.cases
